@@ -4,7 +4,7 @@ from __future__ import annotations
 
 # every method the registry of RFC 7231 / WebDAV / others knows that may carry a body, and tokens over the whole method alphabet
 METHODS_BODY = [b'POST', b'PUT', b'PATCH', b'DELETE', b'M-POST', b'REPORT', b'SEARCH', b'PROPFIND', b'PROPPATCH', b'MKCOL', b'LOCK', b'OPTIONS', b'QUERY', b'ACL', b'BIND', b'MKCALENDAR',
-	b"IT'S", b'X+Y', b'PRO*PFIND', b'A%B', b'A&B', b'A^B', b'post', b'Search']
+	b"IT'S", b'X+Y', b'PRO*PFIND', b'A%B', b'A&B', b'A^B', b'post', b'Search', b'get', b'Trace', b'head', b'connect', b'Connect']
 METHODS_NOBODY = [b'GET', b'HEAD', b'OPTIONS', b'TRACE', b'DELETE', b'M-SEARCH', b'X_Y.Z$', b'SEARCH', b'PROPFIND', b'COPY', b'MOVE', b'UNLOCK', b'PURGE', b"IT'S", b'X+Y', b'A*B', b'get']
 NAMES = [b'X-A', b'Accept', b'accept-language', b'X-Custom_1', b'User-Agent', b'COOKIE', b'Via', b'x-b', b'If-None-Match', b'Cache-Control', b'Referer', b'X-Forwarded-For']
 VALUES = [b'1', b'text/html', b'a, b', b'de;q=0.5', b'x=y', b'"quoted; value"', b'\xe9t\xe9', b'', b'a b  c', b'W/"etag"', b'no-cache', b'Mozilla/5.0 (X11; Linux)', b'=?x', b'1.2.3.4']
@@ -170,7 +170,9 @@ def gen_pipeline(rng, side, maxn=4):
 TOKENS = [b'\r', b'\n', b'\r\n', b' ', b'\t', b':', b';', b',', b'=', b'%', b'%ff', b'%c0%ae', b'%2e', b'..', b'/', b'//', b'?', b'#', b'@', b'\x00', b'\xff', b'\x80', b'=?', b'=?utf-8?b?aA==?=', b'"', b'\\',
 	b'chunked', b'gzip', b'deflate', b'identity', b'Content-Length', b'Transfer-Encoding', b'Host', b'Trailer', b'Content-Encoding', b'HTTP/1.1', b'HTTP/1.0', b'HTTP/2.0', b'0', b'-1', b'+5', b'1_0', b'ffffffff', b'9' * 30, b'\r\n\r\n', b'0\r\n\r\n', b'[::1]', b'*', b'CONNECT', b'h2c', b'Upgrade', b'HTTP2-Settings',
 	b'=?uu?q?abc?=', b'=?hex?q?ab?=', b'=?base64?b?aA==?=', b'=?zlib?q?x?=', b'=?rot13?q?x?=', b'=?utf-7?q?+AGE-?=', b'=?a\x00b?q?x?=', b'=?idna?q?x?=', b'=?unicode_escape?q?\\x?=', b'=?undefined?q?x?=', b'=?punycode?b?gA==?=',
-	b"title*=a\x00b'en'x", b"title*=uu''x", b"title*=hex''zz", b"title*=utf-16''%ff", b"title*=undefined''x", b"; x*=idna''%ff", b'Content-Type: text/plain; charset*=', b'X: =?']
+	b"title*=a\x00b'en'x", b"title*=uu''x", b"title*=hex''zz", b"title*=utf-16''%ff", b"title*=undefined''x", b"; x*=idna''%ff", b'Content-Type: text/plain; charset*=', b'X: =?',
+	# names of media types and codings, where a coding / a charset / a media type is expected
+	b'application/json', b'multipart/form-data', b'multipart/byteranges', b'application/x-www-form-urlencoded', b'message/http', b'text/plain', b'application/gzip', b'application/zlib', b'x-gzip', b'GZIP', b'br', b'compress']
 
 
 def mutate(rng, data):
